@@ -54,6 +54,7 @@ type Contract struct {
 	Inline   bool
 	Opaque   bool
 	Trusted  bool
+	Function bool // `function`: results are a deterministic (uninterpreted) function of the arguments
 	Abstract bool
 	NoFrame  bool
 	Lemma    bool
@@ -63,6 +64,9 @@ type Contract struct {
 	Pos      string
 	Ghost    []GhostUpd
 	Allocates bool
+	HavocCalls       bool     // `havoccalls [except T.f, ...]` on a unit: calls of callees without contract that cannot be inlined are abstracted by whole-heap havoc
+	HavocCallsExcept []Clause
+	HavocExceptKeys  map[string]bool // precomputed kept keys (synthetic contracts of `havoccalls`)
 	HavocAll    bool     // `havocs [except T.f, ...]`: the callee may change every heap location except the named type-level fields
 	HavocExcept []Clause
 	Partial     []string // `partial nopanic pre ...`: obligation kinds assumed, not checked, in this unit
@@ -441,7 +445,7 @@ func stripSpecPrefix(line string) (string, bool) {
 
 var clauseKeywords = map[string]bool{"requires": true, "ensures": true, "modifies": true, "loop": true, "inline": true,
 	"opaque": true, "trusted": true, "abstract": true, "func": true, "lemma": true, "pure": true, "assert": true,
-	"bounded": true, "ghost": true, "noframe": true, "allocates": true, "each": true, "usebody": true, "uses": true, "hide": true, "preserves": true, "cases": true, "abstractrem": true, "trustcall": true, "havocs": true, "partial": true}
+	"bounded": true, "ghost": true, "noframe": true, "allocates": true, "each": true, "usebody": true, "uses": true, "hide": true, "preserves": true, "cases": true, "abstractrem": true, "trustcall": true, "havocs": true, "partial": true, "function": true, "havoccalls": true}
 
 // ParseContracts scans a Go source file for //@ blocks.
 func ParseContracts(fset *token.FileSet, filename string, src []byte, cs *ContractSet) error {
@@ -558,6 +562,8 @@ func ParseContracts(fset *token.FileSet, filename string, src []byte, cs *Contra
 				cur.Opaque = true
 			case "trusted":
 				cur.Trusted = true
+			case "function":
+				cur.Function = true
 			case "abstract":
 				cur.Abstract = true
 			case "noframe":
@@ -598,6 +604,18 @@ func ParseContracts(fset *token.FileSet, filename string, src []byte, cs *Contra
 				cur.Allocates = true
 			case "partial":
 				cur.Partial = append(cur.Partial, strings.Fields(strings.ReplaceAll(rest, ",", " "))...)
+			case "havoccalls":
+				cur.HavocCalls = true
+				rest = strings.TrimSpace(strings.TrimPrefix(strings.TrimSpace(rest), "except"))
+				if rest != "" {
+					for _, part := range splitTopLevel(rest) {
+						c, err := mkClause(part)
+						if err != nil {
+							return err
+						}
+						cur.HavocCallsExcept = append(cur.HavocCallsExcept, c)
+					}
+				}
 			case "havocs":
 				cur.HavocAll = true
 				rest = strings.TrimSpace(strings.TrimPrefix(strings.TrimSpace(rest), "except"))
